@@ -1,5 +1,6 @@
 """C17 — every subschema is addressable by its JSON Pointer."""
 from .. import vjudge
+from .. import gen_refs
 from ..gen_refs import ptr_escape, frag_encode
 from ..wire import Obj, Num
 
@@ -10,7 +11,10 @@ LEAN_MODULES = ["JSV.Props.C17"]
 RULE = ("skeleton documents nesting every schema-valued, schema-array-valued and schema-map-valued keyword of both drafts (incl. the "
         "items and dependencies unions) to depth <= 4, keys from {'', '/', '~', '~0', '~1', '%', ' ', 'é', '0', '-', 'a/b~c', '%25'}; "
         "every leaf carries a unique const mark and is referenced by '#'+percent-encoded RFC 6901 pointer; plus one invalid pointer "
-        "per op in a second stream (bad escapes, leading zeros, '-', '+0', out of range, through non-schema values, absent keywords). "
+        "per op in a second stream (bad escapes, leading zeros, '-', '+0', out of range, through non-schema values, absent keywords); 15 % of the "
+        "references in an equivalent over-encoded spelling (unreserved characters, '~' and the separator '/' itself as %2F: decoding "
+        "precedes the split into segments); member names with a raw '/' beside a sibling whose name is a prefix of it (`a`, `a/not`), "
+        "addressed raw (#/$defs/a/not: the location inside a, or nothing), escaped (#/$defs/a~1not: the member) and over-encoded. "
         "Non-trivial: every op (>= 1 pointer reference); distinct = operation text")
 TRUSTED = ["python rendering of RFC 6901 pointers + RFC 3986 fragment percent-encoding for the expected targets"]
 
@@ -64,21 +68,33 @@ def skeleton(rng, draft, depth, marks, path, locs):
     return o
 
 
+def over_encode(f, rng, p=0.3):
+    """An equivalent spelling of the fragment f: characters that need no encoding are percent-encoded anyway (RFC 3986 §2.3 / 6.2.2.2),
+    INCLUDING the '/' that separates the pointer's segments (%2F, %2f) and the '~' of the pointer escapes; existing escapes change case.
+    RFC 6901 §6: the fragment is percent-decoded first and the result is the pointer, so every such spelling names the same location
+    (an encoded slash IS a separator; a '/' inside a key is written ~1 — possibly %7E1 — never %2F)."""
+    out, i = [], 0
+    while i < len(f):
+        c = f[i]
+        if c == "%":
+            out.append(f[i:i + 3].lower() if rng.random() < 0.5 else f[i:i + 3])
+            i += 3
+            continue
+        if ord(c) < 128 and rng.random() < p:
+            e = "%%%02X" % ord(c)
+            out.append(e.lower() if rng.random() < 0.3 else e)
+        else:
+            out.append(c)
+        i += 1
+    return "".join(out)
+
+
 def render(segs, rng=None):
     """'#' + the RFC 6901 pointer as a URI fragment. With rng: sometimes percent-encode characters that need no encoding
-    (RFC 3986 §2.3/6.2.2.2: an equivalent reference; the library must decode it the same way)."""
+    (an equivalent reference; the library must decode it the same way)."""
     f = frag_encode("".join("/" + ptr_escape(s) for s in segs))
     if rng is not None and rng.random() < 0.15:
-        out, i = [], 0
-        while i < len(f):
-            c = f[i]
-            if c == "%":
-                out.append(f[i:i + 3].lower() if rng.random() < 0.5 else f[i:i + 3])
-                i += 3
-                continue
-            out.append("%%%02X" % ord(c) if ord(c) < 128 and c != "/" and rng.random() < 0.3 else c)
-            i += 1
-        f = "".join(out)
+        f = over_encode(f, rng)
     return "#" + f
 
 
@@ -101,6 +117,13 @@ def gen(rng, tier, n):
     while len(ops) < n:
         draft = "2020" if rng.random() < 0.6 else "7"
         defs_kw = "$defs" if draft == "2020" else "definitions"
+        if rng.random() < 0.06:
+            # member names with a raw '/' beside a sibling whose name is a prefix of it; pointers in canonical and over-encoded spelling
+            # (%2F for a separator): '#/$defs/a%2Fnot' is the LOCATION /$defs/a/not, never the member named 'a/not'
+            sp = (lambda ptr: over_encode(frag_encode(ptr), rng, rng.choice([0.1, 0.3, 0.6]))) if rng.random() < 0.6 else None
+            args, meta = gen_refs.slash_defs(rng, draft, spell=sp, where=rng.choice(["root", "root", "embedded"]))
+            ops.append({"op": "validate", "args": args, "meta": meta})
+            continue
         marks, locs = [], []
         sk = skeleton(rng, draft, rng.choice([1, 2, 3, 4 if tier == "thorough" else 3]), marks, [defs_kw, "S"], locs)
         bad = rng.random() < 0.25
